@@ -598,6 +598,86 @@ def _as_ifexp(s, nxt):
     return []
 
 
+def _truth_positions(s):
+    """(parent, field, index or None, negated?) of every marked container name used for its truth value in the header of s"""
+    out = []
+
+    def test(parent, field, idx, e, neg=False):
+        if isinstance(e, ast.UnaryOp) and isinstance(e.op, ast.Not):
+            if isinstance(e.operand, ast.Name) and getattr(e.operand, '_container', False):
+                out.append((parent, field, idx, e.operand, True))
+                return
+            test(e, 'operand', None, e.operand)
+            return
+        if isinstance(e, ast.BoolOp):
+            for k, v in enumerate(e.values):
+                test(e, 'values', k, v)
+            return
+        if isinstance(e, ast.Name) and getattr(e, '_container', False):
+            out.append((parent, field, idx, e, False))
+
+    def visit(n, top=False):
+        if isinstance(n, (ast.If, ast.While)) and not top:
+            return
+        if isinstance(n, (ast.If, ast.While, ast.IfExp, ast.Assert)):
+            test(n, 'test', None, n.test)
+        if isinstance(n, ast.comprehension):
+            for k, c in enumerate(n.ifs):
+                test(n, 'ifs', k, c)
+        if isinstance(n, ast.BoolOp):
+            for k, v in enumerate(n.values[:-1] if isinstance(n.op, ast.Or) else n.values[:-1]):
+                test(n, 'values', k, v)          # the last operand of and/or is a value, not a test
+        if isinstance(n, ast.UnaryOp) and isinstance(n.op, ast.Not):
+            test(n, 'operand', None, n.operand)
+        for f, v in ast.iter_fields(n):
+            if f in ('body', 'orelse', 'finalbody', 'handlers') and isinstance(v, list) and v and isinstance(v[0], (ast.stmt, ast.ExceptHandler)):
+                continue
+            for c in (v if isinstance(v, list) else [v]):
+                if isinstance(c, ast.AST):
+                    visit(c)
+    visit(s, True)
+    seen, res = set(), []
+    for p in out:
+        if id(p[3]) not in seen:
+            seen.add(id(p[3]))
+            res.append(p)
+    return res
+
+
+def _respell_emptiness(s, wanted):
+    if not any(isinstance(n, ast.Name) and getattr(n, '_container', False) for n in ast.walk(_header(s))):
+        return None
+    n_pos = len(_truth_positions(s))
+    if not n_pos:
+        return None
+    forms = [(lambda x: ast.Compare(left=_len(x), ops=[ast.Eq()], comparators=[ast.Constant(0)]), lambda x: ast.Compare(left=_len(x), ops=[ast.Gt()], comparators=[ast.Constant(0)])),
+             (lambda x: ast.UnaryOp(op=ast.Not(), operand=_len(x)), lambda x: _len(x)),
+             (lambda x: ast.Compare(left=_len(x), ops=[ast.Eq()], comparators=[ast.Constant(0)]), lambda x: _len(x)),
+             (lambda x: ast.Compare(left=_len(x), ops=[ast.Lt()], comparators=[ast.Constant(1)]), lambda x: ast.Compare(left=_len(x), ops=[ast.GtE()], comparators=[ast.Constant(1)])),
+             (lambda x: ast.Compare(left=_len(x), ops=[ast.Eq()], comparators=[ast.Constant(0)]), lambda x: ast.Compare(left=_len(x), ops=[ast.NotEq()], comparators=[ast.Constant(0)]))]
+    for which in [None] + list(range(n_pos)) if n_pos > 1 else [None]:
+        for neg_form, pos_form in forms:
+            t = copy.deepcopy(s)
+            for k, (parent, field, idx, name, neg) in enumerate(_truth_positions(t)):
+                if which is not None and k != which:
+                    continue
+                new = ast.copy_location((neg_form if neg else pos_form)(ast.copy_location(ast.Name(id=name.id, ctx=ast.Load()), name)), name)
+                if neg and not (isinstance(getattr(parent, field) if idx is None else getattr(parent, field)[idx], ast.UnaryOp)):
+                    continue
+                if idx is None:
+                    setattr(parent, field, new)
+                else:
+                    getattr(parent, field)[idx] = new
+            ast.fix_missing_locations(t)
+            if wanted(t):
+                return t
+    return None
+
+
+def _len(x):
+    return ast.Call(func=ast.Name(id='len', ctx=ast.Load()), args=[x], keywords=[])
+
+
 def reshape_conditionals(fn, r, stats, key):
     """A conditional written as an expression (`T = A if c else B`, `return A if c else B`) and the same conditional written as statements
     are the same program. Where the current spelling is not the one the reference has and the other spelling is, rewrite to the
@@ -789,6 +869,16 @@ def reshape_conditionals(fn, r, stats, key):
                 if t is not s and wanted(t):
                     swap([s], [t])
                     out.extend(flatten_block([t]))
+                    changed[0] += 1
+                    i += 1
+                    continue
+            if surplus(s) and _header(s) is not None:
+                # the truth value of a builtin list / tuple / dict / set IS "not empty": `not x` == `len(x) == 0`, `x` == `len(x) > 0` at the
+                # positions where mark_containers established what x holds; rewritten to the spelling the reference has
+                t = _respell_emptiness(s, wanted)
+                if t is not None:
+                    swap([s], [t])
+                    out.append(t)
                     changed[0] += 1
                     i += 1
                     continue
@@ -986,6 +1076,24 @@ def loops_to_comprehensions(fn, r, stats, key):
             if isinstance(s, ast.Try):
                 for hd in s.handlers:
                     blk(hd.body)
+            if isinstance(s, ast.For) and not isinstance(s.iter, ast.Name) and not getattr(s, '_named_iter', False):     # evaluated once, right before the loop, either way
+                # `for x in E` where the reference first names E: `T = E` / `for x in T`
+                tname = '__seq%d' % done[0]
+                pre = ast.fix_missing_locations(ast.copy_location(ast.Assign(targets=[ast.Name(id=tname, ctx=ast.Store())], value=s.iter), s))
+                hdr2 = ast.Expr(value=ast.Tuple(elts=[ast.Constant('for'), s.target, ast.Name(id=tname, ctx=ast.Load())], ctx=ast.Load()))
+                hdr1 = _header(s)
+                loc3 = loc | {tname}
+                d0, d1, d2 = stmt_blind(hdr1, loc)[0], stmt_blind(pre, loc3)[0], stmt_blind(ast.fix_missing_locations(hdr2), loc3)[0]
+                if cur[d0] > have[d0] and d1 in have_w and d2 in have_w and cur[d1] < max(have[d1], 1) and not (cur[d2] and not have[d2]):
+                    s.iter = ast.copy_location(ast.Name(id=tname, ctx=ast.Load()), s.iter)
+                    s._named_iter = True
+                    stmts[i:i + 1] = [pre, s]
+                    cur[d0] -= 1
+                    cur[d1] += 1
+                    cur[d2] += 1
+                    done[0] += 1
+                    i += 2
+                    continue
             if i + 2 < len(stmts):
                 pair = _partition_loop(s, stmts[i + 1], stmts[i + 2])
                 if pair is not None:
@@ -1347,6 +1455,7 @@ def _inline_new_temps(fn, ref_names, params, stats, key):
             operands = {o.split('\x01')[0] for o in _names_read(st.value)}      # by spelling: split webs are merged again afterwards
             last = max(order[id(n)] for n in loads)
             bad = False
+            bad_store = False
             inside = {id(n) for n in ast.walk(st)}
             # the targets of an assignment are bound AFTER its value (which holds the last use) has been evaluated
             for s2 in block[idx + 1:]:
@@ -1358,7 +1467,7 @@ def _inline_new_temps(fn, ref_names, params, stats, key):
                     continue            # the comprehension variables of the moved expression itself
                 if isinstance(n, ast.Name) and n.id.split('\x01')[0] in operands and isinstance(n.ctx, (ast.Store, ast.Del)):
                     if pos < order[id(n)] <= last or any(lp in _enclosing_loops(fn, n) for lp in _loops_between(fn, st, loads)):
-                        bad = True
+                        bad_store = True
                 if isinstance(n, ast.Call) and isinstance(n.func, ast.Attribute) and n.func.attr in MUTATORS and pos < order[id(n)] <= last:
                     root = n.func.value
                     while isinstance(root, (ast.Attribute, ast.Subscript)):
@@ -1373,6 +1482,14 @@ def _inline_new_temps(fn, ref_names, params, stats, key):
                         bad = True
             if bad:
                 continue
+            if bad_store:
+                # an operand is rebound somewhere between the definition and the last use *in the text*; that matters only if the rebinding
+                # can reach a use. Decide by reaching definitions: substitute, and keep the result only if every operand read inside the
+                # substituted copies is reached by exactly the definitions that reached it in the temporary's own definition
+                if not _substitute_if_same_reaching(fn, block, idx, st, v, params):
+                    continue
+                done += 1
+                continue
             sub = _Subst({v: st.value})
             for s2 in block[idx + 1:]:
                 sub.visit(s2)
@@ -1382,6 +1499,60 @@ def _inline_new_temps(fn, ref_names, params, stats, key):
     if done and stats is not None:
         stats.append((key, 'inlined %d new temporaries' % done))
     return done
+
+
+def _substitute_if_same_reaching(fn, block, idx, st, v, params):
+    from . import webs as W
+    loc = set(fn_scope_locals(fn)) | set(params)
+    try:
+        w0 = W.Webs(fn, loc).run()
+    except RecursionError:
+        return False
+    if v in w0.deferred:
+        return False
+    inside = {id(n) for n in ast.walk(st.value)}
+    before = {}
+    for n, reach in w0.uses:
+        if id(n) in inside:
+            before.setdefault(n.id, set()).update(id(w0.defs[d][1]) for d in reach)
+    if any(nm in w0.deferred for nm in before):
+        return False
+    saved_body = copy.deepcopy(fn.body)
+    copies = []
+
+    class S(ast.NodeTransformer):
+        def visit_Name(self, n):
+            if n.id == v and isinstance(n.ctx, ast.Load):
+                c = copy.deepcopy(st.value)
+                copies.append(c)
+                return c
+            return n
+    for s2 in block[idx + 1:]:
+        S().visit(s2)
+    del block[idx]
+    ok = bool(copies)
+    if ok:
+        try:
+            w2 = W.Webs(fn, loc).run()
+        except RecursionError:
+            ok = False
+    if ok:
+        cid = {}
+        for k, c in enumerate(copies):
+            for n in ast.walk(c):
+                cid[id(n)] = k
+        after = {}
+        for n, reach in w2.uses:
+            if id(n) in cid:
+                after.setdefault((cid[id(n)], n.id), set()).update(id(w2.defs[d][1]) for d in reach)
+        for k in range(len(copies)):
+            for nm, defs in before.items():
+                if after.get((k, nm), set()) != defs:
+                    ok = False
+    if not ok:
+        fn.body = saved_body
+        return False
+    return True
 
 
 IMMUTABLE_RESULT = {'range', 'len', 'int', 'str', 'float', 'bool', 'type', 'isinstance', 'abs', 'min', 'max', 'lower', 'upper', 'startswith', 'endswith', 'is_int', 'is_str', 'is_num',
@@ -1430,6 +1601,30 @@ def _loops_between(fn, st, loads):
     return out
 
 
+def _only_consulted(trees, tree, name):
+    """every read of the module-level `name` is a membership test, an iteration, a subscript load or a .get/.keys/.values/.items call,
+    and no other module mentions it"""
+    for other in trees.values():
+        if other is not tree and any((isinstance(x, ast.alias) and x.name == name) or (isinstance(x, ast.Attribute) and x.attr == name) or (isinstance(x, ast.Constant) and x.value == name) for x in ast.walk(other)):
+            return False
+    if any(isinstance(x, ast.Constant) and x.value == name for x in ast.walk(tree)):
+        return False            # listed in __all__ (or otherwise named by a string)
+    pm = {}
+    for n in ast.walk(tree):
+        for c in ast.iter_child_nodes(n):
+            pm[id(c)] = n
+    for x in ast.walk(tree):
+        if isinstance(x, ast.Name) and x.id == name and isinstance(x.ctx, ast.Load):
+            p = pm.get(id(x))
+            ok = (isinstance(p, ast.Compare) and len(p.ops) == 1 and isinstance(p.ops[0], (ast.In, ast.NotIn)) and p.comparators[0] is x) \
+                or (isinstance(p, (ast.For, ast.comprehension)) and p.iter is x) \
+                or (isinstance(p, ast.Subscript) and p.value is x and isinstance(p.ctx, ast.Load)) \
+                or (isinstance(p, ast.Attribute) and p.value is x and p.attr in ('get', 'keys', 'values', 'items') and isinstance(pm.get(id(p)), ast.Call) and pm[id(p)].func is p)
+            if not ok:
+                return False
+    return True
+
+
 def inline_new_constants(trees, stats):
     """a module-level name the reference does not have, bound once to a literal / tuple of names (no calls), is a name for that value"""
     known = reference().get('module_names', {})
@@ -1442,6 +1637,9 @@ def inline_new_constants(trees, stats):
                 v = n.value
                 if not any(isinstance(x, (ast.Call, ast.Lambda, ast.ListComp, ast.DictComp, ast.SetComp, ast.GeneratorExp, ast.List, ast.Dict, ast.Set)) for x in ast.walk(v)):
                     new[n.targets[0].id] = v
+                elif isinstance(v, (ast.List, ast.Set, ast.Dict)) and all(isinstance(x, (ast.Constant, ast.Name, ast.Attribute, ast.expr_context)) for c in ast.iter_child_nodes(v) for x in ast.walk(c)) \
+                        and _only_consulted(trees, tree, n.targets[0].id):
+                    new[n.targets[0].id] = v        # a display of constants that is only ever looked into (x in T, for x in T, T[k], T.get(k)): its identity never matters
         for name in list(new):
             stores = [x for x in ast.walk(tree) if isinstance(x, ast.Name) and x.id == name and isinstance(x.ctx, ast.Store)]
             glob = [x for x in ast.walk(tree) if isinstance(x, ast.Global) and name in x.names]
@@ -1563,10 +1761,14 @@ def normalise_repo(trees, use_reference=True, stats=None):
                     r = ref[c[0]] if len(c) == 1 else None
                 if r is None:
                     continue
+                from .au import mark_containers
+                mark_containers(fn)
                 if not _settle(fn, r, stats, key):
                     reshape_conditionals(fn, r, stats, key)
                     vote_rename(fn, r, stats, key)
                     nl = loops_to_comprehensions(fn, r, stats, key)
+                    if nl:
+                        vote_rename(fn, r, stats, key)          # names introduced by the step above
                     vote_rename_webs(fn, r, stats, key)
                     k = inline_new_temps(fn, r, stats, key)
                     if loops_to_comprehensions(fn, r, stats, key):
@@ -1589,7 +1791,27 @@ def normalise_repo(trees, use_reference=True, stats=None):
                             n.lineno = base + (k + 1) / 100000.0
                             n.col_offset = 0
     for tree in trees.values():
+        _push_not_inwards(tree)
         link_siblings(tree)
+
+
+def _push_not_inwards(tree):
+    """`not (a and b)` is `not a or not b` (De Morgan, evaluation order and short-circuit unchanged): rules read atoms, never a negated group"""
+    from .au import negate
+
+    class T(ast.NodeTransformer):
+        def visit_UnaryOp(self, n):
+            self.generic_visit(n)
+            if isinstance(n.op, ast.Not) and isinstance(n.operand, ast.BoolOp):
+                m = negate(n.operand)
+                ast.copy_location(m, n)
+                for c in ast.walk(m):
+                    if not hasattr(c, 'lineno') and isinstance(c, (ast.expr, ast.stmt)):
+                        ast.copy_location(c, n)
+                return self.visit(m)
+            return n
+    T().visit(tree)
+    ast.fix_missing_locations(tree)
 
 
 def exit_digests(fn):
